@@ -30,7 +30,7 @@ for pid in ids:
     })
 man = {
     "version": 1,
-    "setup_cmd": "cd lean && lake build",
+    "setup_cmd": "sh tools/setup.sh",
     "hooks": {"guard": "BIGTREE_VERIF", "enable": "no instrumentation hooks are needed; checks import bigtree from /repo's working tree as it is",
               "baseline_off_cmd": "/venv/bin/python tools/baseline.py", "source_commits": [], "add_only": True},
     "engines": [{"name": "lean4-proof+correspondence", "path": "check", "serves_properties": [c["property_id"] for c in checks],
